@@ -15,7 +15,7 @@ import warnings
 import numpy as np
 from hypothesis import strategies as st
 
-from vlib.gen.coupled import CoupledSystem, build_disciplines, coupled_systems, describe_graph, input_values
+from vlib.gen.coupled import CoupledSystem, NonFiniteInput, build_disciplines, coupled_systems, describe_graph, input_values
 
 logging.getLogger("gemseo").setLevel(logging.ERROR)
 
@@ -222,6 +222,80 @@ def is_quasi_newton_without_strong_couplings(cfg: dict, info: dict) -> bool:
     return cfg["kind"] in ("solver", "sequential") and uses_quasi_newton(cfg) and info["n_scc_ge2"] == 0 and info["n_self_coupled"] == 0
 
 
+UNGUARDED_ACCELERATIONS = {"Aitken", "Secant", "AlternateDeltaSquared"}
+
+
+def _solver_mdas(mda) -> list:
+    subs = getattr(mda, "inner_mdas", None) or getattr(mda, "mda_sequence", None)
+    if subs:
+        return [m for sub in subs for m in _solver_mdas(sub)]
+    return [mda]
+
+
+def is_nan_on_stagnation(mda, aborted: bool = False) -> bool:
+    """Ledger class (observed after the run): an MDA accelerated by Aitken / Secant / AlternateDeltaSquared whose
+    residual history turned NaN (0/0 in the acceleration formula once successive residuals are identical).
+
+    ``aborted``: the run was stopped by a harness discipline receiving NaN, i.e. before the NaN
+    residual was recorded; the signature is then two identical last residuals.
+    """
+    for sub in _solver_mdas(mda):
+        acc = str(getattr(sub, "acceleration_method", ""))
+        if acc not in UNGUARDED_ACCELERATIONS:
+            continue
+        hist = [float(h) for h in sub.residual_history]
+        if any(math.isnan(h) for h in hist):
+            return True
+        if aborted and len(hist) >= 2 and hist[-1] == hist[-2]:
+            return True
+    return False
+
+
+def is_fd_step_degenerate(cfg: dict, model: CoupledSystem, out, sol: dict) -> bool:
+    """MINPACK's forward-difference step h = 1.5e-8 |x_j| is useless for a coupling component that is tiny but not 0.
+
+    hybr / lm without analytic gradient then see a zero Jacobian column and stop at a non-solution
+    (a SciPy limitation on badly scaled unknowns, not a gemseo one): such a run is inconclusive.
+    """
+    if not any(s["cls"] == "MDAQuasiNewton" and s["qn_method"] in ("hybr", "lm") and not s["qn_grad"] for s in solver_parts(cfg)):
+        return False
+    for name in model.couplings():
+        val = np.asarray(out.get(name), dtype=float).reshape(-1)
+        if val.shape != sol[name].shape:
+            return False
+        stuck = (np.abs(val) > 0) & (np.abs(val) < 1e-9) & (np.abs(sol[name]) > 1e3 * np.abs(val))
+        if bool(np.any(stuck)):
+            return True
+    return False
+
+
+def execute_and_check(ctx, mda, model, cfg, x, sol, e0, label):
+    """Run the MDA and apply oracles (1) and (2); None when the run falls in a known / inconclusive class."""
+    from vlib.core import Violation
+
+    try:
+        out = mda.execute(x)
+    except NonFiniteInput as exc:  # raised by the harness disciplines: the MDA iterates on NaN / inf
+        if is_nan_on_stagnation(mda, aborted=True) and ctx.known("acceleration_nan_on_stagnation"):
+            return None
+        ctx.fail("fixed_point", f"{label}: {exc}", cfg=cfg)
+    except Exception:
+        if is_nan_on_stagnation(mda) and ctx.known("acceleration_nan_on_stagnation"):
+            return None
+        raise
+    if is_nan_on_stagnation(mda) and ctx.known("acceleration_nan_on_stagnation"):
+        return None
+    try:
+        return check_returned(ctx, model, cfg, x, out, sol, e0, label)
+    except Violation:
+        if is_fd_step_degenerate(cfg, model, out, sol):
+            ctx.cls("inconclusive:scipy_fd_step_degenerate")
+            ctx.note("MDAQuasiNewton hybr/lm without gradient: runs stuck on a tiny non-zero coupling component "
+                     "(MINPACK relative finite-difference step) are counted as inconclusive, not as violations")
+            return None
+        raise
+
+
 NONLIN_SOLVE_METHODS = {"broyden1", "broyden2", "anderson", "krylov"}
 
 
@@ -321,7 +395,7 @@ def _case_mda(p, ctx):
         tag = cfg["kind"] + ":" + "+".join(s["cls"] for s in parts)
         n_disc = info["n_disc"]
         order = [i for i in cfg["perm"] if i < n_disc]
-        discs_all = build_disciplines(model, p["values"], p["grammar"])
+        discs_all = build_disciplines(model, p["values"], p["grammar"], reject_non_finite=True)
         discs = [discs_all[i] for i in order]
         if needs_all_strong(cfg) and not info["all_strong"]:
             # documented rejection by MDANewtonRaphson; the same settings are then used inside an MDAChain
@@ -347,18 +421,20 @@ def _case_mda(p, ctx):
                 ctx.cls("qn:" + s["qn_method"] + ("+grad" if s["qn_grad"] else ""))
             elif "acc" in s:
                 ctx.cls("acc:" + s["acc"], f"omega={s['omega']}")
-        out = mda.execute(x1)
+        res = execute_and_check(ctx, mda, model, cfg, x1, sol1, e0, f"{tag} run 1")
         n_it = iterations_of(mda)
-        data, bound, ratio = check_returned(ctx, model, cfg, x1, out, sol1, e0, f"{tag} run 1")
+        if res is None:
+            continue
+        data, bound, ratio = res
         ctx.extra["max_iterations"] = max(ctx.extra.get("max_iterations", 0), n_it)
         ctx.extra["max_defect_over_bound"] = max(ctx.extra.get("max_defect_over_bound", 0.0), round(ratio, 4))
         if n_it >= cfg["budget"]:
             ctx.cls("budget_reached")
         results.append((tag, data, bound))
         if cfg["twice"]:
-            out2 = mda.execute(x2)
             label = f"{tag} run 2 ({'warm' if cfg['warm'] else 'cold'} start)"
-            check_returned(ctx, model, cfg, x2, out2, sol2, e0, label)
+            if execute_and_check(ctx, mda, model, cfg, x2, sol2, e0, label) is None:
+                continue
             ctx.cls("second_run_warm" if cfg["warm"] else "second_run_cold")
         if info["n_scc_ge2"] >= 1 and info["unequal_sizes_in_cycle"] and n_it >= 2:
             ctx.nontriv((p["system"], p["values"], cfg))
